@@ -34,6 +34,7 @@
  *   count <class> <side> <n>      per class and side, calls seen
  *   fired <0|1> [<class> <function> errno=<e>]
  *   bt <hex addresses, innermost first>          (only when fired; resolve with addr2line -f -i -e <tool>)
+ *   post <n>      write/truncate calls on the output side after the fault fired (first-failure-stops statistic)
  *   exit <0|1>    1 when the process reached its atexit handlers
  */
 #define _GNU_SOURCE
@@ -64,6 +65,7 @@ enum { S_IN, S_OUT, S_NSIDE };
 
 static long cnt[C_NCLASS][S_NSIDE];
 static long match_cnt;              /* calls that matched (class, side) so far */
+static long post_out_writes;        /* write/trunc calls on the output side after the fault fired */
 static int cfg_done, cfg_class = -1, cfg_allalloc, cfg_side = -1 /* -1 any */, cfg_kind = EIO, cfg_eintr;
 static long cfg_k;
 static int fired, pending_eio, reached_exit;
@@ -94,6 +96,7 @@ static void vf_report(void)
 			n += snprintf(buf + n, sizeof(buf) - n, " %lx", (unsigned long)bt[i]);
 		n += snprintf(buf + n, sizeof(buf) - n, "\n");
 	}
+	n += snprintf(buf + n, sizeof(buf) - n, "post %ld\n", post_out_writes);
 	n += snprintf(buf + n, sizeof(buf) - n, "exit %d\n", reached_exit);
 	/* raw syscalls through libc's un-wrapped entry points: in VF_WRAP mode this file is not compiled with the
 	   renames and calls open/write/close directly, which the linker would wrap — so use the __real_ names */
@@ -194,13 +197,22 @@ static int side_of_fd(int fd)
 
 	if (fd == 1 && out_fd1)
 		return S_OUT;
-	if (out_prefix == NULL)
+	if (out_prefix == NULL && !out_fd1)
 		return S_IN;
 	snprintf(link, sizeof(link), "/proc/self/fd/%d", fd);
 	n = readlink(link, target, sizeof(target) - 1);
 	if (n <= 0)
 		return S_IN;
 	target[n] = '\0';
+	if (out_fd1) {                           /* a dup() of standard output (ostream_open_stdout) */
+		char t1[4096];
+		ssize_t m = readlink("/proc/self/fd/1", t1, sizeof(t1) - 1);
+		if (m > 0) {
+			t1[m] = '\0';
+			if (strcmp(t1, target) == 0)
+				return S_OUT;
+		}
+	}
 	return side_of_path(target);
 }
 
@@ -211,6 +223,8 @@ static int vf_decide(int cls, int side, const char *fn)
 
 	vf_init();
 	__atomic_add_fetch(&cnt[cls][side], 1, __ATOMIC_SEQ_CST);
+	if (fired && !pending_eio && side == S_OUT && (cls == C_WRITE || cls == C_TRUNC))
+		__atomic_add_fetch(&post_out_writes, 1, __ATOMIC_SEQ_CST);
 	if (cfg_class < 0 || cfg_k <= 0)
 		return 0;
 	match = cfg_allalloc ? is_alloc : (cls == cfg_class);
